@@ -1,7 +1,7 @@
 (* C16 - WorkerPool conserves tasks and always shuts down. Statements only.
    Model: Verif.C16_Pool.Model (interleaving system; `pinned` = code as pinned, `repaired` = code after the fix: commits). *)
 From Coq Require Import List ZArith Bool Permutation.
-From Verif.C16_Pool Require Import Model Inv Proofs Runs Refute Live Term Measure Group GroupProofs Options OptionsProofs Waiters WaitersProofs.
+From Verif.C16_Pool Require Import Model Inv Proofs Runs Refute Live Term Measure Group GroupProofs Options OptionsProofs Waiters WaitersProofs WaitersLive.
 Import ListNotations.
 
 (* Every variant (pinned and repaired), every worker count >= 1, cancel on/off, every task program (nested submits), every
@@ -182,13 +182,20 @@ Theorem C16_waiters_conservation : forall c, 1 <= nw c -> forall scripts kinds s
 Proof. exact wx_conservation. Qed.
 
 (* ... and every reachable state in which neither a pool thread nor a waiter has an enabled step is final: nothing accepted
-   is left in flight and the counter is zero (every accepted task was run or cancelled), a stopped pool has terminated. *)
+   is left in flight and the counter is zero (every accepted task was run or cancelled), a stopped pool has terminated,
+   and no waiter is starved: every waiter that has not returned has a condition that is false in that state (no lost
+   wake-up for the waiters either; invariant of the parked waiters in WaitersLive.v). *)
 Theorem C16_waiters_shutdown_terminates : forall n cn p, 1 <= n -> forall scripts kinds sch, let c := repaired n cn p in
   let x := xrun false c sch (xinit c scripts kinds) in let s := base x in
   xstuckb false c x = true ->
-  (forall i, inflight i s = 0) /\ pending s = 0%Z /\ (running s = false -> all_dead s = true /\ disp s = DDead) /\
-  (forall e, In e (exts s) -> (epc_ e = EIdle /\ ops e = []) \/ (running s = true /\ epc_ e = EIdle /\ exists r, ops e = OWaitShutdown :: r)).
-Proof. exact wx_shutdown_terminates. Qed.
+  ((forall i, inflight i s = 0) /\ pending s = 0%Z /\ (running s = false -> all_dead s = true /\ disp s = DDead) /\
+   (forall e, In e (exts s) -> (epc_ e = EIdle /\ ops e = []) \/ (running s = true /\ epc_ e = EIdle /\ exists r, ops e = OWaitShutdown :: r))) /\
+  (forall w, In w (wts x) -> starved x w = false).
+Proof.
+  intros n cn p H scripts kinds sch c x s S. split.
+  - exact (wx_shutdown_terminates n cn p H scripts kinds sch S).
+  - exact (no_starved_waiter n cn p H scripts kinds sch S).
+Qed.
 
 (* (progress form: WaitersProofs.wx_shutdown_progress - while the counter is not zero, or the pool is stopped and not
    terminated, some pool thread or waiter has an enabled step) *)
